@@ -19,11 +19,12 @@ TA(p, ar) == IF ar = 1 THEN T1(p) ELSE IF ar = 2 THEN T2(p) ELSE T3(p)
 PreText(e, r, fam) ==
   CASE e \in {"npm", "cargo", "hex", "conan", "nuget"} ->
          IF fam = "RC" THEN (IF r = 1 THEN "-RC.1" ELSE "-RC.2") ELSE (IF r = 1 THEN "-alpha.1" ELSE "-alpha.2")
-    [] e = "maven" -> IF r = 1 THEN "-alpha-1" ELSE "-alpha-2"
+    \* maven: the lower-case qualifier and the upper-case milestone alias (M1 < M2 < the release)
+    [] e = "maven" -> IF fam = "M" THEN (IF r = 1 THEN "-M1" ELSE "-M2") ELSE (IF r = 1 THEN "-alpha-1" ELSE "-alpha-2")
     [] e = "gem"   -> IF r = 1 THEN ".alpha.1" ELSE ".alpha.2"
     [] e = "composer" -> IF r = 1 THEN "-alpha1" ELSE "-alpha2"
     [] e = "pypi"  -> IF r = 1 THEN "a1" ELSE "a2"
-Fams(e) == IF e \in {"npm", "cargo", "hex"} THEN {"alpha", "RC"} ELSE {"alpha"}
+Fams(e) == IF e \in {"npm", "cargo", "hex"} THEN {"alpha", "RC"} ELSE IF e = "maven" THEN {"alpha", "M"} ELSE {"alpha"}
 \* level 4: pypi's post release; for the ecosystems with more than three numeric components a fourth component
 \* (X.Y.Z.65536 lies above X.Y.Z and below X.Y.(Z+1); the value sits just beyond 16 bits on purpose)
 PostText(e) == IF e = "pypi" THEN ".post1" ELSE ".65536"
@@ -145,18 +146,19 @@ Pypi ==
   \cup {Vec(e, "epoch-notprefix2", "!=" \o T2(b) \o ".*", <<Iv(PrefLo(b, 2, 3), TRUE, PrefHi(b, 2, 3), FALSE)>>, TRUE, FALSE, FALSE) : b \in E2}
 
 \* bracket intervals (nuget, maven): all eight open/closed/unbounded forms, the exact form, maven unions
-Brackets(e) ==
+BracketsF(e, fam) ==
   LET up(b) == V(b[1] + 1, b[2], 5, 3) IN
-     {Vec(e, "closed",      "[" \o T3(b) \o "," \o T3(up(b)) \o "]", <<Iv(b, TRUE, up(b), TRUE)>>, FALSE, TRUE, FALSE) : b \in B3}
-  \cup {Vec(e, "open",      "(" \o T3(b) \o "," \o T3(up(b)) \o ")", <<Iv(b, FALSE, up(b), FALSE)>>, FALSE, TRUE, FALSE) : b \in B3}
-  \cup {Vec(e, "half-open", "[" \o T3(b) \o "," \o T3(up(b)) \o ")", <<Iv(b, TRUE, up(b), FALSE)>>, FALSE, TRUE, FALSE) : b \in B3}
-  \cup {Vec(e, "open-half", "(" \o T3(b) \o "," \o T3(up(b)) \o "]", <<Iv(b, FALSE, up(b), TRUE)>>, FALSE, TRUE, FALSE) : b \in B3}
-  \cup {Vec(e, "min-incl",  "[" \o T3(b) \o ",)", <<Iv(b, TRUE, TOP, TRUE)>>, FALSE, TRUE, FALSE) : b \in B3}
-  \cup {Vec(e, "min-excl",  "(" \o T3(b) \o ",)", <<Iv(b, FALSE, TOP, TRUE)>>, FALSE, TRUE, FALSE) : b \in B3}
-  \cup {Vec(e, "max-incl",  "(," \o T3(b) \o "]", <<Iv(BOT, TRUE, b, TRUE)>>, FALSE, TRUE, FALSE) : b \in B3}
-  \cup {Vec(e, "max-excl",  "(," \o T3(b) \o ")", <<Iv(BOT, TRUE, b, FALSE)>>, FALSE, TRUE, FALSE) : b \in B3}
-  \cup {Vec(e, "exact",     "[" \o T3(b) \o "]", <<Iv(b, TRUE, b, TRUE)>>, FALSE, TRUE, FALSE) : b \in B3}
-  \cup {Vec(e, "closed2",   "[" \o T2(b) \o "," \o T2(V(b[1] + 1, b[2], 0, 3)) \o ")", <<Iv(b, TRUE, V(b[1] + 1, b[2], 0, 3), FALSE)>>, FALSE, FALSE, FALSE) : b \in B2}
+     {VecF(e, "closed",      "[" \o T3(b) \o "," \o T3(up(b)) \o "]", <<Iv(b, TRUE, up(b), TRUE)>>, FALSE, TRUE, FALSE, fam) : b \in B3}
+  \cup {VecF(e, "open",      "(" \o T3(b) \o "," \o T3(up(b)) \o ")", <<Iv(b, FALSE, up(b), FALSE)>>, FALSE, TRUE, FALSE, fam) : b \in B3}
+  \cup {VecF(e, "half-open", "[" \o T3(b) \o "," \o T3(up(b)) \o ")", <<Iv(b, TRUE, up(b), FALSE)>>, FALSE, TRUE, FALSE, fam) : b \in B3}
+  \cup {VecF(e, "open-half", "(" \o T3(b) \o "," \o T3(up(b)) \o "]", <<Iv(b, FALSE, up(b), TRUE)>>, FALSE, TRUE, FALSE, fam) : b \in B3}
+  \cup {VecF(e, "min-incl",  "[" \o T3(b) \o ",)", <<Iv(b, TRUE, TOP, TRUE)>>, FALSE, TRUE, FALSE, fam) : b \in B3}
+  \cup {VecF(e, "min-excl",  "(" \o T3(b) \o ",)", <<Iv(b, FALSE, TOP, TRUE)>>, FALSE, TRUE, FALSE, fam) : b \in B3}
+  \cup {VecF(e, "max-incl",  "(," \o T3(b) \o "]", <<Iv(BOT, TRUE, b, TRUE)>>, FALSE, TRUE, FALSE, fam) : b \in B3}
+  \cup {VecF(e, "max-excl",  "(," \o T3(b) \o ")", <<Iv(BOT, TRUE, b, FALSE)>>, FALSE, TRUE, FALSE, fam) : b \in B3}
+  \cup {VecF(e, "exact",     "[" \o T3(b) \o "]", <<Iv(b, TRUE, b, TRUE)>>, FALSE, TRUE, FALSE, fam) : b \in B3}
+  \cup {VecF(e, "closed2",   "[" \o T2(b) \o "," \o T2(V(b[1] + 1, b[2], 0, 3)) \o ")", <<Iv(b, TRUE, V(b[1] + 1, b[2], 0, 3), FALSE)>>, FALSE, FALSE, FALSE, fam) : b \in B2}
+Brackets(e) == UNION {BracketsF(e, fam) : fam \in Fams(e)}
 Nuget == Brackets("nuget")
 Maven == Brackets("maven")
   \cup {Vec("maven", "union", "(," \o T3(b) \o "],[" \o T3(V(b[1] + 1, b[2], 5, 3)) \o ",)",
